@@ -67,10 +67,12 @@ func special(rt *rapid.T, o Opts, nEED, nEnv *int, infoOnly bool) []rc.P {
 				if m.Type == rc.EnvPackSize && !o.PackSizes {
 					m.Type = rc.EnvDB
 				}
-				if len(m.New) > 12 {
+				// short values keep the responses small; values at the one-byte length limit
+				// (254, 255 bytes) are let through
+				if len(m.New) > 12 && len(m.New) < 254 {
 					m.New = m.New[:12]
 				}
-				if len(m.Old) > 12 {
+				if len(m.Old) > 12 && len(m.Old) < 254 {
 					m.Old = m.Old[:12]
 				}
 			}
